@@ -70,6 +70,9 @@ type Case struct {
 	LogLevel string `json:"log_level,omitempty"`
 	// LongTarget: the request target carries a further query parameter of that many bytes (a request line of several KiB)
 	LongTarget int `json:"long_target,omitempty"`
+	// Mounted (panic site "handler"): the handler hands its c.Writer() and request to a second router without Recovery,
+	// whose handler makes the progress and panics; the panic crosses both routers up to the Recovery of the first
+	Mounted bool `json:"mounted,omitempty"`
 }
 
 var ctxStates = []string{"", "", "", "canceled", "deadline", "canceled-in-mw"}
@@ -198,6 +201,15 @@ func checkCase(c *Case) (err error) {
 	}
 	boom := func(ctx fox.Context) {
 		ran["boom"]++
+		if c.Mounted && c.Where == "handler" {
+			if inner, err := fox.New(fox.WithNoRouteHandler(func(ic fox.Context) {
+				progress(ic)
+				raise(c.Value)
+			})); err == nil {
+				inner.ServeHTTP(ctx.Writer(), ctx.Request())
+				return
+			}
+		}
 		progress(ctx)
 		switch c.Where {
 		case "updates-body":
@@ -499,6 +511,7 @@ func genCase(t *rapid.T) *Case {
 	c.CloneWith = gen.Chance(t, 1, 3, "clonewith")
 	c.LogLevel = gen.Pick(t, []string{"", "", "", "error", "off"}, "loglevel")
 	c.LongTarget = gen.Pick(t, []int{0, 0, 0, 0, 1000, 4090, 5000, 70000}, "longtarget")
+	c.Mounted = c.Where == "handler" && gen.Chance(t, 1, 4, "mounted")
 	n := gen.IntR(t, 0, 6, "nheaders")
 	for i := 0; i < n; i++ {
 		tok := fmt.Sprintf("tok%dZ%dq", i, gen.IntR(t, 100000, 999999, "tok"))
@@ -521,6 +534,9 @@ func TestPanics(t *testing.T) {
 		stats.Class("where:" + c.Where)
 		stats.Class("kind:" + c.Kind)
 		stats.Class("progress:" + c.Progress)
+		if c.Mounted {
+			stats.Class("panic-crosses-a-mounted-second-router")
+		}
 		stats.Class("log-handler-accepts:" + map[string]string{"": "everything", "error": "error-and-above", "off": "nothing"}[c.LogLevel])
 		nonCanon := false
 		for _, h := range c.Headers {
